@@ -107,6 +107,7 @@ def c02(ctx):
     ctx.add([o for o in p_role.role_obs(fx) if "Operation" in o.key or "symlink" in o.key or "read_link" in o.key])
     ctx.add(p_kinds.filetype_table(fx))
     ctx.add(creation_errors(fx))
+    ctx.add(p_kinds.arms_must_create(fx))
     ctx.add(p_kinds.sibling_agreement(fx))
     ctx.add(p_kinds.target_base_agreement(fx))
     ctx.add(p_gate.destructive_confined(fx))
